@@ -56,7 +56,7 @@ Push(S, mode, D, allow) ==
                   /\ rt' = [b \in Branches |-> IF b \in S THEN br[b] ELSE IF b \in D THEN NoCommit ELSE rt[b]]
                   /\ everRemote' = everRemote \cup ReachSet({br[b] : b \in S}, commits)
              ELSE UNCHANGED <<rr, rt, everRemote>>
-        /\ Log([a |-> "push", mode |-> mode, refs |-> S, deletes |-> D, allow |-> allow, lost |-> (IF verdict = "incomplete" THEN missing \ recov ELSE {}), verdict |-> verdict, need |-> need, missing |-> missing, ambiguous |-> ambiguous,
+        /\ Log([a |-> "push", mode |-> mode, refs |-> S, deletes |-> D, allow |-> allow, lost |-> (IF verdict = "incomplete" THEN missing \ recov ELSE {}), verdict |-> verdict, need |-> need, mayNeed |-> mayNeed, missing |-> missing, ambiguous |-> ambiguous,
                 mayUpload |-> upl, serverBefore |-> server,
                 remoteNeeds |-> PtrOids(everRemote', commits) \ (Excused \cup (IF verdict = "incomplete" THEN missing \ recov ELSE {})),
                 rrAfter |-> rr'])
